@@ -1,3 +1,2 @@
-import FluteModel.Drv.Util
--- stub: engine `orecv` not built yet
-def main : IO Unit := Flute.Drv.runDriver () (fun _ _ => ((), "bad-op"))
+import FluteModel.Drv.Orecv
+def main : IO Unit := Flute.Drv.runDriver ({} : Flute.Drv.Orecv.DState) Flute.Drv.Orecv.step
